@@ -28,7 +28,11 @@ extern unsigned long G_noflags;		/* 1: sequential state: no REMOVED / REMOVAL_OW
 #define LF_FLAGS(p)		(__CPROVER_POINTER_OFFSET(p) & 7UL)	/* tag bits of a (canonical) tagged pointer */
 #define LF_AT(k)		((k) < G_n ? (struct cds_lfht_node *) &G_pool[k] : (struct cds_lfht_node *) 0)
 #define LF_TAG(p, f)		((struct cds_lfht_node *) ((char *) (p) + (f)))
+#ifdef LF_SMALL
+#define LF_MAXN			6UL	/* bounded stand-in: chains of at most 6 nodes, loops unwound */
+#else
 #define LF_MAXN			(1UL << 20)
+#endif
 
 /* pointer-arithmetic forms of the nine tag helpers (integer-level equivalence: obligation C08.O1.tags) */
 #define VLF_clear_flag(p)	((struct cds_lfht_node *) ((char *) (p) - (__CPROVER_POINTER_OFFSET(p) & 7UL)))
